@@ -188,6 +188,15 @@ PIPE_PALETTES = ["sparse", "dense"]
 
 def pipeline_desc(pal="sparse"):
     s = _seed() % 3
+    if pal == "dup":            # two entries of one group carry the same name (a step applied twice): both are in the file
+        return {
+            "photon_collection": [{"name": "mark1", "func": MARK, "enabled": True, "arguments": {"a": 1.5 + s, "v": [1]}},
+                                  {"name": "mark1", "func": MARK, "enabled": True, "arguments": {"a": 2.5 + s, "v": [2]}}],
+            "charge_collection": [{"name": "mark2", "func": MARK, "enabled": True, "arguments": {"a": 7}},
+                                  {"name": "other", "func": MARK, "enabled": True, "arguments": {"a": 8}},
+                                  {"name": "mark2", "func": MARK, "enabled": False, "arguments": {"a": 9}}],
+            "readout_electronics": [{"name": "mark3", "func": MARK, "enabled": True, "arguments": {"a": 3}}],
+        }
     if pal == "dense":          # one model in every group, written in reverse group order
         return {g: [{"name": f"m{i}", "func": MARK, "enabled": i % 4 != 1, "arguments": {"a": i + s, "v": [i]}}]
                 for i, g in reversed(list(enumerate(GROUPS)))} | {
@@ -1095,6 +1104,11 @@ def enumerate_cases(tier, seed):
                     if thorough:
                         cases.append({"part": "doc", "det": kind, "detpal": dpal, "mode": mode, "modepal": mpal,
                                       "run": mode != "calibration", "pipe": "dense"})
+    # a pipeline in which two entries of one group share their name
+    for kind in DET_KEYS:
+        for mode, mpal in (("exposure", "list"), ("observation", "disabled-step")):   # (sweeps the uniquely named model)
+            cases.append({"part": "doc", "det": kind, "detpal": "full", "mode": mode, "modepal": mpal, "run": True,
+                          "pipe": "dup"})
     # presence
     for ms in cfgx.subsets(MODE_KEYS):
         for ds in cfgx.subsets(DET_KEYS):
@@ -1129,7 +1143,7 @@ def expected_size(tier, seed):
     n_range = sum(len(r[8]) for r in TABLE) * (len(PATHS) + (len(THOROUGH_PATHS) if tier == "thorough" else 0))
     if tier == "thorough":
         n_doc *= len(PIPE_PALETTES)
-    return n_doc + n_rev + n_pres + n_range + len(RO_TIMES) * 4
+    return n_doc + n_rev + n_pres + n_range + len(RO_TIMES) * 4 + len(DET_KEYS) * 2
 
 
 def run_case(case):
